@@ -296,6 +296,109 @@ def gen_and_run(rng, tier, ident, secret, profile):
     return events, lines, impl
 
 
+def sweep_scripts(make_impl, canon_fn, twisted, double=False):
+    """C13's quantifier, systematically: one base conversation (subscribe while disconnected, OP_INFO split in
+    two, messages - one split mid-frame -, reads, further subscribe/unsubscribe/publish) with a FAULT injected
+    before every step: the connection is dropped, the next attempt is refused, or the application closes.
+    After a fault the conversation goes on as a broker that is reachable again would make it (retry delay, accept,
+    fresh OP_INFO).  Yields (events, lines) of each run; `double` injects two faults."""
+    nonce = [0]
+
+    def info():
+        nonce[0] += 1
+        return enc(P.OP_INFO, p8(b'hp') + bytes([nonce[0] & 255, 7, 7, 7]))
+
+    def pub(i, c, p):
+        return enc(P.OP_PUBLISH, p8(i) + p8(c) + p)
+    m2 = pub(b'bob', b'c2', b'second message')
+    base = [('app', ['sub', hexin(b'c1')]), ('net', 'info-a'), ('net', 'info-b'), ('net', pub(b'alice', b'c1', b'm1')),
+            ('app', ['read']), ('app', ['sub', hexin(b'c2')]), ('net', m2[:9]), ('net', m2[9:]), ('app', ['read']),
+            ('app', ['unsub', hexin(b'c1')]), ('app', ['pub', hexin(b'c2'), hexin(b'xyz')]), ('net', pub(b'alice', b'c2', b'm3')),
+            ('app', ['read'])]
+    faults = ['lost', 'refuse', 'close']
+    points = [(i, f) for i in range(len(base) + 1) for f in faults]
+    plans = [[pt] for pt in points]
+    if double:
+        plans += [[a, b] for a in points for b in points if a[0] < b[0] and 'close' not in (a[1],)][::7]
+    for plan in plans:
+        impl = make_impl()
+        events, lines = [], []
+        st = {'closed': False, 'refuse_next': 0, 'info': None}
+
+        def do(ev):
+            events.append(ev)
+            lines.append(canon_fn(impl.event(ev)))
+
+        def live():
+            return impl.tr is not None and not impl.tr.gone and not impl.tr.closing
+
+        def pending():
+            impl.attempts = [(f, fa) for f, fa in impl.attempts if not (f.done() if hasattr(f, 'done') else f.called)]
+            return bool(impl.attempts)
+
+        def ensure_connected():
+            for _ in range(8):
+                if st['closed'] or live():
+                    return
+                if pending():
+                    if st['refuse_next']:
+                        st['refuse_next'] -= 1
+                        do(['refuse'])
+                    else:
+                        do(['accept'])
+                        st['info'] = info()
+                elif impl.tr is not None and not impl.tr.gone:
+                    do(['lost'])        # the client closed it (protocol error): report the loss
+                else:
+                    do(['advance', 1000])
+        try:
+            do(['start'] if twisted else ['idle'])
+            for i in range(len(base) + 1):
+                for (pi, f) in plan:
+                    if pi != i or st['closed']:
+                        continue
+                    if f == 'lost':
+                        if impl.tr is not None and not impl.tr.gone:
+                            do(['lost'])
+                    elif f == 'refuse':
+                        st['refuse_next'] += 1
+                        if impl.tr is not None and not impl.tr.gone:
+                            do(['lost'])
+                    else:
+                        do(['close'])
+                        st['closed'] = True
+                if i == len(base):
+                    break
+                kind, what = base[i]
+                if kind == 'app':
+                    do(what)
+                    continue
+                if st['closed']:
+                    continue
+                ensure_connected()
+                if not live():
+                    continue
+                if what in ('info-a', 'info-b'):
+                    if st['info'] is None:
+                        continue
+                    part = st['info'][:6] if what == 'info-a' else st['info'][6:]
+                    if what == 'info-b':
+                        st['info'] = None
+                    do(['data', hexin(part)])
+                else:
+                    if st['info'] is not None:      # a fresh connection: the broker sends OP_INFO first
+                        do(['data', hexin(st['info'])])
+                        st['info'] = None
+                    do(['data', hexin(what)])
+            if st['closed']:
+                if impl.tr is not None and not impl.tr.gone:
+                    do(['lost'])
+                do(['advance', 5000])
+        finally:
+            impl.close()
+        yield plan, events, lines
+
+
 def monitors(res, cfg, events, lines, script):
     """C11 / C12 / C13 on the implementation trace (independent of the Lean model)"""
     ident, secret = cfg
@@ -465,6 +568,29 @@ def run_case(res, drv, rng, tier, profile):
     return script
 
 
+def run_sweep(res, drv, make_impl, canon_fn, twisted, prefix, client, double=False):
+    for plan, events, lines in sweep_scripts(make_impl, canon_fn, twisted, double=double):
+        script = {'client': client, 'ident': 'me', 'secret': 'secret', 'events': events, 'legal': True, 'sweep': plan}
+        before = len(res.violations)
+        monitors(res, ('me', 'secret'), events, lines, script)
+        for v in res.violations[before:]:
+            if twisted:
+                v['what'] = v['what'].replace('asyncio session', 'Twisted service')
+            v['engine'] = res.engine
+        res.evaluations += 1
+        res.note('sweep')
+        res.nontriv([json.dumps(events)[:4000]])
+        if drv is not None:
+            drv.ask('%s.reset %s %s' % (prefix, hexin(b'me'), hexin(b'secret')))
+            for idx, (ev, line) in enumerate(zip(events, lines)):
+                mo = drv.ask('%s.ev ' % prefix + ' '.join(str(x) for x in ev))
+                status, _, mline = mo.partition(' ')
+                mline = canon_fn([o for o in mline.split(';') if o])
+                if status != 'ok' or mline != line:
+                    res.disagree('%s, fault sweep %r, event %d %r' % (client, plan, idx, ev[:2]), script, line[:800], mo[:800])
+                    break
+
+
 def run(tier, seed, drv, prop=None):
     res = Result('aioclient')
     res.model_used = drv is not None
@@ -475,6 +601,8 @@ def run(tier, seed, drv, prop=None):
         script = run_case(res, drv, rng, tier, profiles[k % len(profiles)])
         res.nontriv([json.dumps(script['events'])[:4000]])
         res.sample({'events': script['events'][:14]}, limit=3)
+    if prop in (None, 'C13', 'C11'):
+        run_sweep(res, drv, lambda: Impl('me', 'secret'), canon, False, 'a', 'asyncio', double=(tier == 'thorough'))
     res.assumptions += [
         'asyncio create_connection is replaced by a scripted attempt (accept / refuse); transports are fakes honouring the selector-transport contract; time is virtual',
         'application calls are injected at quiescent points of the session\'s own tasks',
